@@ -27,7 +27,7 @@ def claim_term(env, c):
     raise E.Unsupported("bad claim %r" % (c,))
 
 
-def run_obs_job(pid, env, spec, entry, catmod, expect_raise=None):
+def run_obs_job(pid, env, spec, entry, catmod, expect_raise=None, spot_points=True):
     job = Job(pid, env, spec, entry, catalogue_module=catmod)
     job.cfg["want_ref"] = False
     twin_done = False
@@ -96,6 +96,32 @@ def run_obs_job(pid, env, spec, entry, catmod, expect_raise=None):
                 inputs = H.model_inputs(m, job.vals)
                 job.finding("obs", "claim '%s' fails on %s" % (label, inputs), dict(kind="obs", inputs=inputs, label=label),
                             facts=facts, goal=z3.Not(ct), model=m)
+        if spot_points and t.path.ok and job.vals:
+            # supplement (not the deciding step): run the harness on plain integers at a solver-chosen non-degenerate point
+            # of this path (inputs pairwise distinct and > 1000 where the path allows) and evaluate every claim there.
+            # Catches failures of claims that are only stated on concrete runs (e.g. "decoded witness satisfies decoded
+            # constraints") and encoding-independent mistakes; any failure is by construction replayable.
+            ins = [v.t for v in job.vals.values()]
+            spread = [ins[i] != ins[j] for i in range(len(ins)) for j in range(i)] + [v > 1000 + 7 * i for i, v in enumerate(ins)]
+            st, m = H.solve(t.path.assume + t.path.pc, spread, 4000)
+            if st != "sat":
+                st, m = H.solve(t.path.assume + t.path.pc, [], 4000)
+            if st == "sat":
+                inputs = H.model_inputs(m, job.vals)
+                from symtrace.concrete import run_concrete
+                out = run_concrete(env, entry, job.cfg, inputs)
+                bad = None
+                if out["outcome"] == "ok":
+                    for label, c in out["result"]:
+                        okc = (c[1] == c[2]) if (type(c) is tuple and c[0] == "eq") else (
+                            ((c[1] - c[2]) % env.P == 0) if (type(c) is tuple and c[0] == "cong") else bool(c))
+                        if not okc:
+                            bad = label
+                            break
+                job.obligation("sat" if bad else "unsat")
+                if bad:
+                    job.finding("obs", "claim '%s' fails at the evaluation point %s" % (bad, inputs),
+                                dict(kind="obs", inputs=inputs, label=bad))
         if not twin_done and obs:
             # vacuity twin: the negation of the last non-trivial claim must be refutable-or-satisfiable, i.e. the claim
             # is not vacuously true because the path facts are inconsistent
